@@ -17,6 +17,10 @@ type Fixture struct {
 	Flags  []string          `json:"flags,omitempty"`   // extra flags before the positional argument
 	Files  map[string]string `json:"files,omitempty"`   // extra files in the working directory ("dir/" = directory, "a->b" = symlink)
 	Fails  bool              `json:"fails"`             // intended to be a pre-write failure
+	// MustFail: the property's statement itself names this class of input as a failure before writing ("unreadable or
+	// invalid config, unreadable, malformed or unsupported spec, routing conflict"). For the other fixtures the tree
+	// under test decides whether the input is acceptable; for these a tree that proceeds (exit 0) violates the property.
+	MustFail bool `json:"must_fail,omitempty"`
 }
 
 const specHead = `openapi: 3.0.3
@@ -160,39 +164,41 @@ var Fixtures = []Fixture{
 	{Name: "flag/cpuprofile-unwritable", Stage: "flag", Spec: smallSpec, Flags: []string{"--cpuprofile", "nodir/x.prof"}, Fails: true},
 
 	// ---- config stage
-	{Name: "config/missing", Stage: "config", Spec: smallSpec, CfgArg: "nope.yml", Fails: true},
-	{Name: "config/is-directory", Stage: "config", Spec: smallSpec, CfgArg: "cfgdir", Files: map[string]string{"cfgdir/": ""}, Fails: true},
-	{Name: "config/symlink-loop", Stage: "config", Spec: smallSpec, CfgArg: "loop.yml", Files: map[string]string{"loop.yml->loop2.yml": "", "loop2.yml->loop.yml": ""}, Fails: true},
-	{Name: "config/bad-yaml", Stage: "config", Spec: smallSpec, Config: "generator: [unclosed\n", Fails: true},
-	{Name: "config/not-a-mapping", Stage: "config", Spec: smallSpec, Config: "- a\n- b\n", Fails: true},
+	{Name: "config/missing", Stage: "config", Spec: smallSpec, CfgArg: "nope.yml", Fails: true, MustFail: true},
+	{Name: "config/is-directory", Stage: "config", Spec: smallSpec, CfgArg: "cfgdir", Files: map[string]string{"cfgdir/": ""}, Fails: true, MustFail: true},
+	{Name: "config/symlink-loop", Stage: "config", Spec: smallSpec, CfgArg: "loop.yml", Files: map[string]string{"loop.yml->loop2.yml": "", "loop2.yml->loop.yml": ""}, Fails: true, MustFail: true},
+	{Name: "config/bad-yaml", Stage: "config", Spec: smallSpec, Config: "generator: [unclosed\n", Fails: true, MustFail: true},
+	{Name: "config/not-a-mapping", Stage: "config", Spec: smallSpec, Config: "- a\n- b\n", Fails: true, MustFail: true},
 	{Name: "config/unknown-field", Stage: "config", Spec: smallSpec, Config: "generatorr:\n  features: {}\n", Fails: true},
 	{Name: "config/unknown-nested-field", Stage: "config", Spec: smallSpec, Config: "generator:\n  featurez: {}\n", Fails: true},
 	{Name: "config/bad-filter-regex", Stage: "config", Spec: smallSpec, Config: "generator:\n  filters:\n    path_regex: \"(\"\n", Fails: true},
 	{Name: "config/bad-convenient-errors", Stage: "config", Spec: smallSpec, Config: "generator:\n  convenient_errors: maybe\n", Fails: true},
 	{Name: "config/unknown-feature-enable", Stage: "config", Spec: smallSpec, Config: "generator:\n  features:\n    enable: [\"paths/clinet\"]\n", Fails: true},
 	{Name: "config/unknown-feature-disable", Stage: "config", Spec: smallSpec, Config: "generator:\n  features:\n    disable: [\"paths/sever\"]\n", Fails: true},
-	{Name: "config/wrong-type", Stage: "config", Spec: smallSpec, Config: "parser:\n  depth_limit: many\n", Fails: true},
-	{Name: "config/implicit-ogen-yml-bad", Stage: "config", Spec: smallSpec, Files: map[string]string{"ogen.yml": "generator: [unclosed\n"}, Fails: true},
+	{Name: "config/wrong-type", Stage: "config", Spec: smallSpec, Config: "parser:\n  depth_limit: many\n", Fails: true, MustFail: true},
+	{Name: "config/implicit-ogen-yml-is-directory", Stage: "config", Spec: smallSpec, Files: map[string]string{"ogen.yml/": ""}, Fails: true, MustFail: true},
+	{Name: "config/implicit-unreadable-before-valid", Stage: "config", Spec: smallSpec, Files: map[string]string{"ogen.yml/": "", ".ogen.yaml": "generator:\n  features:\n    enable: [\"debug/example_tests\"]\n"}, Fails: true, MustFail: true},
+	{Name: "config/implicit-ogen-yml-bad", Stage: "config", Spec: smallSpec, Files: map[string]string{"ogen.yml": "generator: [unclosed\n"}, Fails: true, MustFail: true},
 
 	// ---- spec read stage
-	{Name: "spec/missing", Stage: "spec-read", Arg: "nothere.yml", Fails: true},
-	{Name: "spec/is-directory", Stage: "spec-read", Arg: "specdir", Files: map[string]string{"specdir/": ""}, Fails: true},
-	{Name: "spec/symlink-loop", Stage: "spec-read", Arg: "sl.yml", Files: map[string]string{"sl.yml->sl2.yml": "", "sl2.yml->sl.yml": ""}, Fails: true},
-	{Name: "spec/unsupported-scheme", Stage: "spec-read", Arg: "ftp://example.invalid/spec.yml", Fails: true},
-	{Name: "spec/unreachable-url", Stage: "spec-read", Arg: "http://127.0.0.1:1/spec.yml", Fails: true},
-	{Name: "spec/bad-file-url", Stage: "spec-read", Arg: "file://remotehost/spec.yml", Fails: true},
+	{Name: "spec/missing", Stage: "spec-read", Arg: "nothere.yml", Fails: true, MustFail: true},
+	{Name: "spec/is-directory", Stage: "spec-read", Arg: "specdir", Files: map[string]string{"specdir/": ""}, Fails: true, MustFail: true},
+	{Name: "spec/symlink-loop", Stage: "spec-read", Arg: "sl.yml", Files: map[string]string{"sl.yml->sl2.yml": "", "sl2.yml->sl.yml": ""}, Fails: true, MustFail: true},
+	{Name: "spec/unsupported-scheme", Stage: "spec-read", Arg: "ftp://example.invalid/spec.yml", Fails: true, MustFail: true},
+	{Name: "spec/unreachable-url", Stage: "spec-read", Arg: "http://127.0.0.1:1/spec.yml", Fails: true, MustFail: true},
+	{Name: "spec/bad-file-url", Stage: "spec-read", Arg: "file://remotehost/spec.yml", Fails: true, MustFail: true},
 
 	// ---- syntax stage
-	{Name: "syntax/yaml-error", Stage: "syntax", Spec: "openapi: 3.0.3\ninfo: [unclosed\n", Fails: true},
-	{Name: "syntax/json-error", Stage: "syntax", SpecAs: "spec.json", Spec: "{\"openapi\": \"3.0.3\", \"info\": {", Fails: true},
-	{Name: "syntax/empty", Stage: "syntax", Spec: "\n", Fails: true},
-	{Name: "syntax/binary", Stage: "syntax", Spec: "\x00\x01\x02\xff\xfe garbage \x00", Fails: true},
-	{Name: "syntax/scalar", Stage: "syntax", Spec: "just a string\n", Fails: true},
+	{Name: "syntax/yaml-error", Stage: "syntax", Spec: "openapi: 3.0.3\ninfo: [unclosed\n", Fails: true, MustFail: true},
+	{Name: "syntax/json-error", Stage: "syntax", SpecAs: "spec.json", Spec: "{\"openapi\": \"3.0.3\", \"info\": {", Fails: true, MustFail: true},
+	{Name: "syntax/empty", Stage: "syntax", Spec: "\n", Fails: true, MustFail: true},
+	{Name: "syntax/binary", Stage: "syntax", Spec: "\x00\x01\x02\xff\xfe garbage \x00", Fails: true, MustFail: true},
+	{Name: "syntax/scalar", Stage: "syntax", Spec: "just a string\n", Fails: true, MustFail: true},
 	{Name: "syntax/tab-indent", Stage: "syntax", Spec: "openapi: 3.0.3\ninfo:\n\ttitle: t\n", Fails: true},
 
 	// ---- validation stage
-	{Name: "invalid/no-version", Stage: "validation", Spec: "info:\n  title: t\n  version: \"1\"\npaths: {}\n", Fails: true},
-	{Name: "invalid/swagger2", Stage: "validation", Spec: "swagger: \"2.0\"\ninfo:\n  title: t\n  version: \"1\"\npaths: {}\n", Fails: true},
+	{Name: "invalid/no-version", Stage: "validation", Spec: "info:\n  title: t\n  version: \"1\"\npaths: {}\n", Fails: true, MustFail: true},
+	{Name: "invalid/swagger2", Stage: "validation", Spec: "swagger: \"2.0\"\ninfo:\n  title: t\n  version: \"1\"\npaths: {}\n", Fails: true, MustFail: true},
 	{Name: "invalid/dangling-ref", Stage: "validation", Spec: opSpec("  /a:\n    get:\n      operationId: a\n      responses:\n        \"200\":\n          $ref: \"#/components/responses/Nope\"\n"), Fails: true},
 	{Name: "invalid/dangling-file-ref", Stage: "validation", Spec: opSpec("  /a:\n    get:\n      operationId: a\n      responses:\n        \"200\":\n          description: ok\n          content:\n            application/json:\n              schema:\n                $ref: \"other.yml#/X\"\n"), Fails: true},
 	{Name: "invalid/duplicate-operation-id", Stage: "validation", Spec: opSpec("  /a:\n    get:\n      operationId: same\n" + okResp + "  /b:\n    get:\n      operationId: same\n" + okResp), Fails: true},
@@ -226,6 +232,6 @@ var Fixtures = []Fixture{
 	{Name: "ir/expand-unwritable", Stage: "ir", Spec: smallSpec, Config: "expand: notadir/expanded.yml\n", Files: map[string]string{"notadir": "a file, not a directory\n"}, Fails: true},
 
 	// ---- route build stage
-	{Name: "route/two-parameters-in-a-row", Stage: "route", Spec: opSpec("  /root/{a}{b}:\n    get:\n      operationId: a\n      parameters:\n        - {name: a, in: path, required: true, schema: {type: string}}\n        - {name: b, in: path, required: true, schema: {type: string}}\n" + okResp), Fails: true},
-	{Name: "route/two-parameters-in-a-row-last-operation", Stage: "route", Spec: opSpec("  /a:\n    get:\n      operationId: a\n" + okResp + "  /b/{x}:\n    get:\n      operationId: b\n      parameters:\n        - {name: x, in: path, required: true, schema: {type: string}}\n" + okResp + "  /z/pre{a}{b}/tail:\n    get:\n      operationId: z\n      parameters:\n        - {name: a, in: path, required: true, schema: {type: string}}\n        - {name: b, in: path, required: true, schema: {type: integer}}\n" + okResp), Fails: true},
+	{Name: "route/two-parameters-in-a-row", Stage: "route", Spec: opSpec("  /root/{a}{b}:\n    get:\n      operationId: a\n      parameters:\n        - {name: a, in: path, required: true, schema: {type: string}}\n        - {name: b, in: path, required: true, schema: {type: string}}\n" + okResp), Fails: true, MustFail: true},
+	{Name: "route/two-parameters-in-a-row-last-operation", Stage: "route", Spec: opSpec("  /a:\n    get:\n      operationId: a\n" + okResp + "  /b/{x}:\n    get:\n      operationId: b\n      parameters:\n        - {name: x, in: path, required: true, schema: {type: string}}\n" + okResp + "  /z/pre{a}{b}/tail:\n    get:\n      operationId: z\n      parameters:\n        - {name: a, in: path, required: true, schema: {type: string}}\n        - {name: b, in: path, required: true, schema: {type: integer}}\n" + okResp), Fails: true, MustFail: true},
 }
